@@ -127,12 +127,12 @@ const sizeHuge48 = uint64(1)<<48 + 64
 
 var sizeConsts = map[string]uint64{
 	"0": 0, "1": 1, "15": 15, "16": 16, "17": 17, "24": 24, "31": 31, "32": 32, "33": 33, "40": 40, "47": 47, "48": 48,
-	"63": 63, "64": 64, "65": 65, "2^20": 1 << 20, "2^24": 1 << 24, "2^30": 1 << 30, "2^48": sizeHuge48, "2^63": 1 << 63,
+	"63": 63, "64": 64, "65": 65, "2^20": 1 << 20, "2^21": 1 << 21, "2^30": 1 << 30, "2^48": sizeHuge48, "2^63": 1 << 63,
 	"max": math.MaxUint64,
 }
 
 var sizeKinds = []string{"0", "1", "15", "16", "17", "24", "31", "32", "33", "40", "47", "48", "63", "64", "65",
-	"exact", "exact-1", "exact+1", "2^20", "2^24", "2^30", "2^48", "2^63", "max"}
+	"exact", "exact-1", "exact+1", "2^20", "2^21", "2^30", "2^48", "2^63", "max"}
 
 // unsafeLo/unsafeHi delimit the open interval of 64-bit values that are never handed to the
 // code under test as a potential size (a real allocation of up to 256 TiB would be attempted).
@@ -348,8 +348,12 @@ func classifyStream(target string, d *domain, es []Elem, encs [][]byte, sizes []
 		return known{Malformed: true, What: "chunk:data"}
 	}
 	generic := target == "protomsg"
+	indexOnly := target == "index" || target == "indexput" // these read exactly two elements
 	pos := 0
 	for i, e := range es {
+		if indexOnly && i == 2 {
+			break
+		}
 		ti := d.info(e)
 		if total-pos < 16 {
 			return known{} // cannot happen: every encoding carries its header
@@ -388,6 +392,12 @@ func classifyStream(target string, d *domain, es []Elem, encs [][]byte, sizes []
 			return known{}
 		}
 		pos += len(encs[i])
+	}
+	if indexOnly {
+		if len(es) < 2 || d.info(es[0]).name != "CaFormatIndex" || d.info(es[1]).name != "CaFormatTable" {
+			return known{Malformed: true, What: "not-an-index", OKBefore: 0}
+		}
+		return known{OKBefore: 2}
 	}
 	return known{OKBefore: len(es)}
 }
